@@ -251,6 +251,8 @@ def subtrees(t):
 def run_case(case):
     """materialise, run every query; returns (list of observations, base directory is removed)"""
     _patch_text()
+    import logging
+    logging.disable(logging.CRITICAL)
     base = case_dir()
     cwd = os.getcwd()
     try:
@@ -330,6 +332,8 @@ def gen_defs(rng, roots, n, opts):
             d, short = root + subs, rng.choice(SHORTS if opts.get("case_names") else SHORTS[:12])
         maj = rng.choice([0, 1, 1, 2])
         mnr = rng.choice([0, 0, 1, 2])
+        if maj == 0 and mnr == 0:
+            mnr = 1                                                 # version 0.0 is not a valid version
         key = (tuple(d), short, maj, mnr)
         if key in used:
             continue
@@ -445,7 +449,7 @@ def gen_case(rng, tier, flavor=None):
             c["port"] = 7000 + rng.randrange(0, 100)
         defs.append(c)
     qs = all_dirs_queries(rng, roots, defs)
-    return {"files": defs, "queries": qs, "flavor": flavor}
+    return {"files": defs, "queries": qs, "flavor": flavor, "dirs": roots}
 
 
 def mkfile(i, d, short, maj, mnr, body, ext="dsdl", port=None):
